@@ -263,6 +263,9 @@ def run(chk):
                    tout=ages, esc_rate=float(rng.choice([0.0, -10.0])), N0=5e5, f_BH=tg)
         if r_ == 1:
             kwc["tout"], kwc["f_BH"] = np.array(ages), np.array(tg)
+        if r_ == 2:
+            # ages written as plain integers (the natural spelling, "tout=[100, 12000]"): the fractional targets must survive it
+            kwc["tout"] = [int(a) for a in ages] if len(ages) == 2 else np.array([int(a) for a in ages])     # (no draw from rng: later cases keep their inputs)
         chk.note_distinct(dict(tout=ages, f_BH=tg))
         try:
             with warnings.catch_warnings():
